@@ -3,6 +3,7 @@ NAME = "ConstKalman"
 _SRC = "ntp-proto/src/algorithm/kalman/source.rs"
 _MAT = "ntp-proto/src/algorithm/kalman/matrix.rs"
 _MOD = "ntp-proto/src/algorithm/kalman/mod.rs"
+_TT = "ntp-proto/src/time_types.rs"
 TABLE = [
     ("KALMAN_MIN_DELAY_EXP", _SRC, r"const MIN_DELAY: NtpDuration = NtpDuration::from_exponent\((-?\d+)\);", "int"),
     ("KALMAN_AVG_BUF_LEN", _SRC, r"pub struct AveragingBuffer \{\s*data: \[f64; (\d+)\],", "int"),
@@ -17,4 +18,14 @@ TABLE = [
     ("KALMAN_DIV_SITES_SOURCE", _SRC, r" /=? ", "count"),
     ("KALMAN_DIV_SITES_MATRIX", _MAT, r" /=? ", "count"),
     ("KALMAN_SQRT_SITES_MOD", _MOD, r"\.sqrt\(\)", "count"),
+    # variants of the time-type helpers the filter calls (the C32 repair changes them); the model follows
+    # whichever variant is present, the tie lemma demands exactly one of each pair
+    ("TT_FROM_SECONDS_ROUNDS", _TT, r"\(f \* u32::MAX as f64\)\.round\(\) as i64", "count"),
+    ("TT_FROM_SECONDS_TRUNCS", _TT, r"\(f \* u32::MAX as f64\) as i64", "count"),
+    ("TT_ABS_SATURATES", _TT, r"duration: self\.duration\.saturating_abs\(\),", "count"),
+    ("TT_ABS_WRAPS", _TT, r"duration: self\.duration\.abs\(\),", "count"),
+    ("TT_POLL_INC_SATURATES", _TT, r"Self\(self\.0\.saturating_add\(1\)\)\.min\(limits\.max\)", "count"),
+    ("TT_POLL_INC_WRAPS", _TT, r"Self\(self\.0 \+ 1\)\.min\(limits\.max\)", "count"),
+    ("TT_POLL_DEC_SATURATES", _TT, r"Self\(self\.0\.saturating_sub\(1\)\)\.max\(limits\.min\)", "count"),
+    ("TT_POLL_DEC_WRAPS", _TT, r"Self\(self\.0 - 1\)\.max\(limits\.min\)", "count"),
 ]
